@@ -585,7 +585,11 @@ def judge_producer(world, h, relaxed):
             world.violate('C04', 'reply-raised', fe, e.get('where', 'reply'),
                           f'reply callback raised {e["ret_repr"][7:]}')
             continue
-        token = hc.get('token')
+        # the token the peer really sent (independent reader when the envelope is the subject), not the one the
+        # library reported to the handler
+        token = c.get('token') if c.get('lp') else None
+        if h.lp_mode != 'ref' and token is None:
+            token = hc.get('token')
         # envelope / bytes
         for w in sent:
             if token is None:
